@@ -27,26 +27,19 @@ def scan_forbidden():
                     bad.append(f"{f}: {m.group(0)}")
     return bad
 
-def run(ck, prop_file, theorems):
-    """returns True when the gate holds; records obligations in ck"""
-    ck.obligations = list(theorems)
-    ok, out, dt = build_coq()
-    if not ok:
-        ck.violation("Coq development does not build: " + out[-1500:],
-                     {"failing_input_found": False, "theorem": "build of theories/", "log": out[-3000:]})
-        return False
-    bad = scan_forbidden()
-    if bad:
-        ck.violation("forbidden token in development: " + ", ".join(bad[:5]),
-                     {"failing_input_found": False, "theorem": "no Admitted/Axiom policy"})
-        return False
+
+HYP_FILE = "Hypotheses.v"
+HYP_THEOREMS = ["HYP_prime_r", "HYP_nonsquare_d"]
+
+def _file_gate(ck, prop_file, theorems):
+    """compile one Props file; returns (axioms, unpinned) or None after recording a violation"""
     path = os.path.join(VERIF, "theories", "Props", prop_file)
     src = strip_comments(open(path).read())
     p = sh(f"timeout 900 coqc -Q theories PlonkV theories/Props/{prop_file}", cwd=VERIF, check=False)
     if p.returncode != 0:
         ck.violation(f"{prop_file} does not compile: " + p.stdout[-1500:],
                      {"failing_input_found": False, "theorem": prop_file})
-        return False
+        return None
     # Print Assumptions output: one block per theorem, in order
     blocks = re.split(r"(?=Closed under the global context|Axioms:)", p.stdout)
     blocks = [b for b in blocks if b.startswith("Closed") or b.startswith("Axioms:")]
@@ -60,8 +53,59 @@ def run(ck, prop_file, theorems):
     unpinned = [t for t in theorems if not re.search(r"\bCheck\s+%s\s*:" % re.escape(t), src) and not re.search(r"\bCheck\s+\(?@?%s\b" % re.escape(t), src)]
     extra = axioms - ALLOWED_AXIOMS
     if missing or extra or len(blocks) < n_print or n_print < len(theorems):
-        ck.violation(f"proof gate: missing={missing} unexpected axioms={sorted(extra)} print-assumption blocks={len(blocks)}/{n_print}",
+        ck.violation(f"proof gate ({prop_file}): missing={missing} unexpected axioms={sorted(extra)} print-assumption blocks={len(blocks)}/{n_print}",
                      {"failing_input_found": False, "theorem": prop_file})
+        return None
+    return axioms, unpinned
+
+
+def _coqchk_hypotheses():
+    """coqchk of Props/Hypotheses (8 min: it re-checks MathComp); cached on the hash of the
+    sources it depends on, serialised by a lock so that parallel thorough runs pay once"""
+    import hashlib, json, fcntl
+    files = ["Props/Hypotheses.v"]
+    for d in ("Base", "Gates", "Alg", "Curve"):
+        files += sorted(os.path.join(d, f) for f in os.listdir(os.path.join(VERIF, "theories", d)) if f.endswith(".v"))
+    h = hashlib.sha256()
+    for f in files:
+        h.update(open(os.path.join(VERIF, "theories", f), "rb").read())
+    key = h.hexdigest()
+    cdir = os.path.join(VERIF, ".cache"); os.makedirs(cdir, exist_ok=True)
+    cfile = os.path.join(cdir, "coqchk_hypotheses.json")
+    with open(os.path.join(cdir, "coqchk_hypotheses.lock"), "w") as lk:
+        fcntl.flock(lk, fcntl.LOCK_EX)
+        try:
+            c = json.load(open(cfile))
+            if c.get("key") == key and c.get("ok") is True:
+                return True
+        except Exception:
+            pass
+        q = sh("timeout 3000 coqchk -silent -o -Q theories PlonkV PlonkV.Props.Hypotheses", cwd=VERIF, check=False)
+        m = re.search(r"\* Axioms:(.*?)\n\s*\n", q.stdout, re.S)
+        ax = m.group(1).strip() if m else "?"
+        ok = q.returncode == 0 and ax == "<none>" and "type-in-type: <none>" in q.stdout
+        json.dump({"key": key, "ok": ok, "axioms": ax}, open(cfile, "w"))
+        return True if ok else f"axioms={ax} tail={q.stdout[-300:]}"
+
+def run(ck, prop_file, theorems):
+    """returns True when the gate holds; records obligations in ck"""
+    ck.obligations = list(theorems)
+    ok, out, dt = build_coq()
+    if not ok:
+        ck.violation("Coq development does not build: " + out[-1500:],
+                     {"failing_input_found": False, "theorem": "build of theories/", "log": out[-3000:]})
+        return False
+    bad = scan_forbidden()
+    if bad:
+        ck.violation("forbidden token in development: " + ", ".join(bad[:5]),
+                     {"failing_input_found": False, "theorem": "no Admitted/Axiom policy"})
+        return False
+    r = _file_gate(ck, prop_file, theorems)
+    if r is None:
+        return False
+    axioms, unpinned = r
+    # the hypotheses carried by the statements (PrimeR, NonSquareD) are themselves theorems
+    if _file_gate(ck, HYP_FILE, HYP_THEOREMS) is None:
         return False
     if getattr(ck, "tier", "quick") == "thorough":
         mod = "PlonkV.Props." + prop_file[:-2]
@@ -73,6 +117,12 @@ def run(ck, prop_file, theorems):
                          {"failing_input_found": False, "theorem": mod + " (coqchk)"})
             return False
         ck.notes.append(f"coqchk -o {mod}: Axioms <none>, no type-in-type, no unsafe fixpoints, no assumed positivity")
+        hy = _coqchk_hypotheses()
+        if hy is not True:
+            ck.violation("coqchk re-check of PlonkV.Props.Hypotheses failed or reports axioms: " + str(hy)[:400],
+                         {"failing_input_found": False, "theorem": "PlonkV.Props.Hypotheses (coqchk)"})
+            return False
+        ck.notes.append("coqchk -o PlonkV.Props.Hypotheses (r prime, d non-square; includes MathComp's Fermat): Axioms <none> (result cached per source hash)")
     ck.discharged = list(theorems)
     ck.notes.append(f"proof gate: {len(theorems)} theorems of Props/{prop_file} compiled; Print Assumptions: {'closed' if not axioms else sorted(axioms)}; coq build {dt:.1f}s")
     if unpinned:
@@ -83,7 +133,7 @@ CHECKER_CMD = "make -f Makefile.coq (coq_makefile, full .vo build, Coq 8.16.1) +
 TRUSTED = [
     "Coq 8.16.1 kernel (coqc); no native_compute; vm_compute only in closed computations",
     "Axioms: none declared; Print Assumptions of every property theorem is 'Closed under the global context'",
-    "Section/class hypothesis in statements: PrimeR (prime r) wherever field inverses or integrality are used",
+    "Class hypotheses in statements: PrimeR (prime r) and NonSquareD (Jubjub d non-square); both are proved without assumptions in Props/Hypotheses.v (Lucas certificate for r evaluated by vm_compute in the kernel; Fermat's little theorem from MathComp; Euler criterion for d), so each statement can be instantiated to an unconditional one",
     "Extraction: ExtrOcamlBasic + ExtrOcamlZBigInt directives only (see DESIGN.md section 7), OCaml 4.13.1, zarith 1.12, ocaml/driver.ml",
     "Correspondence: Rust harness (/verif/harness), hooks in /repo under cfg plonk_verif, python orchestration (/verif/vlib)",
     "Model is hand-written Gallina; the Rust code is modelled, not verified: tie = differential run on shared inputs",
